@@ -34,3 +34,49 @@ fn smoke_challenge() {
     core::mem::forget(t);
     kani::cover!(true);
 }
+
+/// C08 `c08_ipp_scalars_any_lengths`
+///
+/// Property: C08 (hostile proofs never panic), inner-product level.
+/// Symbolic: |L| in 0..=3, |R| in 0..=3 (independent), claimed length n in 0..=9.
+/// Concrete: the points (non-identity), the scalars a, b, the transcript label.
+/// Claim: `InnerProductProof::verification_scalars` returns `Ok`/`Err` and never panics
+/// (Kani's default checks: index bounds, unwrap, overflow, explicit panics; unwinding
+/// assertions on); if it returns `Ok((u_sq, u_inv_sq, s))` then |L| == |R|, n == 1 << |L|
+/// and the three vectors have lengths |L|, |L|, n.
+/// Bound: |L|,|R| <= 3, n <= 9; unwind 34 (longest loop: STROBE squeeze of 32 bytes).
+/// Stubs: keccak::f1600, keccak::p1600, zeroize::optimization_barrier,
+/// ChaCha20Core::{from_seed, generate}.
+#[kani::proof]
+#[kani::unwind(34)]
+#[kani::stub(keccak::f1600, f1600_stub)]
+#[kani::stub(keccak::p1600, p1600_stub)]
+#[kani::stub(zeroize::optimization_barrier, barrier_stub)]
+#[kani::stub(<ChaCha20Core as SeedableRng>::from_seed, chacha_from_seed_stub)]
+#[kani::stub(<ChaCha20Core as BlockRngCore>::generate, chacha_generate_stub)]
+fn c08_ipp_scalars_any_lengths() {
+    let l: usize = kani::any();
+    let r: usize = kani::any();
+    let n: usize = kani::any();
+    kani::assume(l <= 3 && r <= 3 && n <= 9);
+    let la = [UnitA(K271(3)), UnitA(K271(4)), UnitA(K271(11))];
+    let ra = [UnitA(K271(5)), UnitA(K271(6)), UnitA(K271(13))];
+    let proof = InnerProductProof::<UnitA>::verif_from_parts(la[..l].to_vec(), ra[..r].to_vec(), K271(7), K271(9));
+    let mut t = Transcript::new(b"ipp");
+    let res = proof.verif_verification_scalars(n, &mut t);
+    match &res {
+        Ok((u_sq, u_inv_sq, s)) => {
+            assert!(l == r);
+            assert!(n == 1usize << l);
+            assert!(u_sq.len() == l);
+            assert!(u_inv_sq.len() == l);
+            assert!(s.len() == n);
+        }
+        Err(_) => {}
+    }
+    kani::cover!(res.is_ok() && l == 3, "Ok reachable with three rounds");
+    kani::cover!(res.is_err(), "Err reachable");
+    core::mem::forget(t);
+    core::mem::forget(res);
+    core::mem::forget(proof);
+}
